@@ -119,6 +119,20 @@ try:
                 r = {"ok": cf(act["k"])}
             elif a == "shelve":
                 r = {"ok": cf.call_and_shelve(act["k"]).get()}
+            elif a == "check":            # check_call_in_cache: a bool, never an exception
+                r = {"ok": None, "check": bool(cf.check_call_in_cache(act["k"]))}
+            elif a == "mr":               # a MemorizedResult built from the store, then .get()
+                from joblib.memory import MemorizedResult
+                ref = MemorizedResult(cf.store_backend, (cf.func_id, cf._get_args_id(act["k"])))
+                try:
+                    r = {"ok": ref.get(), "mr": True}
+                except KeyError as e:     # documented: the item is not (any more) in the store
+                    r = {"ok": None, "mr": "KeyError", "msg": str(e)[:120]}
+            elif a == "shelve_clear_call":
+                ref = cf.call_and_shelve(act["k"])
+                v1 = ref.get()
+                ref.clear()
+                r = {"ok": cf(act["k"]), "first": v1}
             elif a == "clear":
                 mem.clear(warn=False)
                 r = {"ok": None}
